@@ -169,7 +169,7 @@ fn judge_f64(ctx: &mut Ctx, bits: u64) {
                 match (a, b) {
                     (Ok(a), Some(b)) => {
                         ctx.out_bd(&a);
-                        ctx.check(same_value(&a, &want) && a == b, "from-float/not-exact", &case, || format!("f64 {:016x} ({:e}) -> {} but the float holds {}", bits, f, Dec::of(&a).tok(), want.tok()));
+                        let held_exact = ctx.check(same_value(&a, &want) && a == b, "from-float/not-exact", &case, || format!("f64 {:016x} ({:e}) -> {} but the float holds {}", bits, f, Dec::of(&a).tok(), want.tok()));
                         match ctx.guard(|| (a.to_f64(), a.to_ref().to_f64())) {
                             Err(p) => ctx.fail("to-float/panic", &case, format!("to_f64 of {} panicked: {}", Dec::of(&a).tok(), p)),
                             Ok((g1, g2)) => {
@@ -180,7 +180,7 @@ fn judge_f64(ctx: &mut Ctx, bits: u64) {
                         }
                         if ctx.want_event() {
                             let out = Dec::of(&a).tok();
-                            ctx.event(|| serde_json::json!({"p": "C14", "op": "from_f64", "in": [format!("{:016x}", bits)], "out": out, "case": ["f64", format!("{:016x}", bits)]}).to_string());
+                            ctx.log("from_f64", &[format!("{:016x}", bits)], serde_json::json!({}), out, held_exact);
                         }
                     }
                     (a, b) => ctx.fail("from-float/finite-rejected", &case, format!("finite f64 {:016x} ({:e}) rejected: try_from ok={} from_f64 some={}", bits, f, a.is_ok(), b.is_some())),
@@ -266,15 +266,13 @@ fn judge_to_f64(ctx: &mut Ctx, case: &Case, t: &Dec) {
                 return;
             }
             // finite result
-            if cmp_abs_with_float(t, f64::MIN_POSITIVE) == Less {
-                ctx.check(within_subnormal_step(t, g), "to-float/subnormal-range", case, || format!("to_f64 of {} = {:e} is more than one subnormal step away", t.tok(), g));
+            let held = if cmp_abs_with_float(t, f64::MIN_POSITIVE) == Less {
+                ctx.check(within_subnormal_step(t, g), "to-float/subnormal-range", case, || format!("to_f64 of {} = {:e} is more than one subnormal step away", t.tok(), g))
             } else {
-                ctx.check(within_rel(t, g), "to-float/relative-error", case, || format!("to_f64 of {} = {:e} (bits {:016x}) has relative error above 2^-48 or the wrong sign", t.tok(), g, g.to_bits()));
-            }
-            if ctx.want_event() {
-                let tt = t.tok();
-                let toks = case.toks.clone();
-                ctx.event(|| serde_json::json!({"p": "C14", "op": "to_f64", "in": [tt], "out": format!("{:016x}", g.to_bits()), "case": toks}).to_string());
+                ctx.check(within_rel(t, g), "to-float/relative-error", case, || format!("to_f64 of {} = {:e} (bits {:016x}) has relative error above 2^-48 or the wrong sign", t.tok(), g, g.to_bits()))
+            };
+            if ctx.want_event() && t.s.abs() < 1200 {
+                ctx.log("to_f64", &[t.tok()], serde_json::json!({}), format!("{:016x}", g.to_bits()), held);
             }
         }
     }
